@@ -70,4 +70,31 @@ def build():
         Clause('L1_layer_carries_every_setting_over_including_the_configured_timeout', frame(None)),
         Clause('L2_the_new_layer_wraps_the_old_stack', 'r.service_builder.layer.inner == new_layer && r.service_builder.layer.outer == self.service_builder.layer')])
     u.close('}')
+
+    # ---- client side: tonic/src/transport/channel/endpoint.rs, the Endpoint builder (same idea: Endpoint::timeout is the
+    # configured timeout that Connection::new hands to GrpcTimeout::new) ----
+    E = 'tonic/src/transport/channel/endpoint.rs'
+    import re
+    import vxlib
+    src = vxlib.read_src(E)
+    u.raw('''
+// opaque configuration payloads of Endpoint (moved, never inspected, by its setters)
+pub struct EndpointType { pub id: Ghost<int> }
+pub struct Uri { pub id: Ghost<int> }
+pub struct HeaderValue { pub id: Ghost<int> }
+pub struct TlsConnector { pub id: Ghost<int> }
+pub struct SharedExec { pub id: Ghost<int> }
+pub struct IpAddr { pub id: Ghost<int> }
+''')
+    u.item(E, 'struct', 'Endpoint')
+    efields = re.findall(r'^\s+(?:pub(?:\(crate\))?\s+)?(\w+):', src[src.index('pub struct Endpoint {'):src.index('}', src.index('pub struct Endpoint {'))], re.M)
+    setters = [(m.group(1), m.group(2)) for m in re.finditer(r'pub fn (\w+)\(self(?:, [^)]*)?\) -> Self \{\s*Endpoint \{\s*(\w+):', src)]
+    u._emit('impl Endpoint {'); u._open_header = 'impl Endpoint {'
+    for name, own in setters:
+        keep = ' && '.join('r.%s == self.%s' % (f, f) for f in efields if f != own)
+        ens = [Clause('F1_every_other_setting_is_kept', keep)]
+        if name == 'timeout':
+            ens.append(Clause('F2_the_configured_timeout_is_stored', 'r.timeout == Some(dur)'))
+        u.fn(E, name, within='impl Endpoint', ensures=ens)
+    u.close('}')
     return u
